@@ -24,7 +24,7 @@ MANIFEST = dict(
     note="Python call semantics of *args/**kwargs forwarding is trusted; the translator is the tie and is cross-checked against the imported modules.",
     technique="Lean 4 kernel decision (decide +kernel) over source-regenerated tables + exhaustive calls of all wrappers",
 )
-PROP_FILES = ["HtmlVerif/Props/C19.lean"]
+PROP_FILES = ["HtmlVerif/Props/C19.lean", "HtmlVerif/Props/SrcC15b.lean"]
 
 
 def exported_functions(mod):
@@ -144,6 +144,7 @@ def run(tier: str) -> int:
         ck.add(l, im, nontrivial=True, tag=l.split(" ", 1)[0])
     ck.exhaustive_scopes.append({"scope": "every exported function of htmltools.tags and htmltools.svg x {_add_ws omitted, True, False, non-bool}; every top-level shortcut",
                                  "functions": n_fn, "shortcuts": len(tops), "exhaustive": True})
+    ck.add_src(['Tag_initC15b'])      # the `_add_ws` clause of Tag.__init__ (Props/SrcC15b.lean)
     ck.correspond(holds=False)
     # the statement itself, evaluated on the implementation for every function
     reps = 8 if tier == "quick" else 60
